@@ -302,4 +302,109 @@ def fromQuantile (ty : ThType) (byTime : Bool) (lc : Locality) (x : Data) (grp :
       | .error e, _ => .error e
       | _, .error e => .error e
 
+/-! ### storage order of the time axis
+
+  `perm` lists, for every storage position, the position the same time step has in another storage order
+  (a permutation of `0 … T−1`: chronological vs. shuffled / descending / yearly blocks out of order / two runs
+  concatenated).  `reindex perm f` is the array `f` stored in that other order. -/
+
+def reindex {α} (perm : List Nat) (f : Nat → α) : Nat → α := fun t => f (perm.getD t 0)
+
+/-! ### values that are not numbers (`NaN`, `±inf` as missing-value markers)
+
+  The rational model has no such values; this small extension carries exactly the two facts the metrics rely on:
+  IEEE comparisons with `NaN` are false (so `NaN` is never an instance), and `np.where(mask, x, 0)` *selects* — it never
+  computes with the value it does not select (`filtG` is polymorphic in the value type). -/
+
+inductive XVal where
+  | fin (q : Rat) | nan | pinf | ninf
+deriving DecidableEq, Repr
+
+/-- IEEE `x > th` / `x < th` for a finite threshold -/
+def XVal.gt : XVal → Rat → Bool
+  | .fin q, th => decide (q > th)
+  | .pinf, _ => true
+  | _, _ => false
+
+def XVal.lt : XVal → Rat → Bool
+  | .fin q, th => decide (q < th)
+  | .ninf, _ => true
+  | _, _ => false
+
+/-- the defining comparison of the four threshold types on extended values (`lo` = the threshold for
+    `higher`/`lower`, the lower bound otherwise) -/
+def condX (ty : ThType) (x : XVal) (lo hi : Rat) : Bool :=
+  match ty with
+  | .higher => x.gt lo
+  | .lower => x.lt lo
+  | .between => x.gt lo && x.lt hi
+  | .outside => x.lt lo || x.gt hi
+
+instance : Zero XVal := ⟨.fin 0⟩
+
+def XVal.isFin : XVal → Bool
+  | .fin _ => true
+  | _ => false
+
+/-- `np.where(mask, dataset, 0)` for an arbitrary value type -/
+def filtG {α} [Zero α] (x : Nat → Nat → Nat → α) (m : Mask) : Nat → Nat → Nat → α :=
+  fun t i j => if m t i j then x t i j else 0
+
+/-! ### a metric object used repeatedly (attributes reassigned, buffers rewritten in place between calls)
+
+  The specification is cache-free: every evaluation reads the *current* attributes and the *current* content of the
+  array objects.  `runCachedById` is the behaviour of a memo keyed on the identity of the array object (which an
+  in-place write or an attribute assignment does not change) — it is what the specification excludes. -/
+
+structure MState where
+  ty : ThType
+  v0 : Spec
+  v1 : Spec
+  x : Data
+  grp : Option (Nat → Int)
+
+inductive Op where
+  | setType (ty : ThType)            -- `metric.threshold_type = …`
+  | setThr (v0 v1 : Spec)            -- `metric.threshold_value = …`
+  | write (x : Data)                 -- `dataset[...] = …` (same array object)
+  | scale (c : Rat)                  -- `dataset *= c`
+  | setTime (grp : Option (Nat → Int)) -- `time[...] = …` (same array object)
+  | eval                             -- `calculate_instances_of_threshold_exceedance(dataset, time)`
+
+def applyOp (s : MState) : Op → MState
+  | .setType ty => { s with ty := ty }
+  | .setThr v0 v1 => { s with v0 := v0, v1 := v1 }
+  | .write x => { s with x := x }
+  | .scale c => { s with x := fun t i j => s.x t i j * c }
+  | .setTime g => { s with grp := g }
+  | .eval => s
+
+def applyAll (s : MState) (ops : List Op) : MState := ops.foldl applyOp s
+
+def evalNow (s : MState) (T : Nat) : Except String (Nat → Nat → Nat → Nat) :=
+  instances ⟨s.ty, s.v0, s.v1⟩ s.x s.grp T
+
+/-- the outputs of the `eval` calls of a sequence, in order -/
+def runOps (T : Nat) : MState → List Op → List (Except String (Nat → Nat → Nat → Nat))
+  | _, [] => []
+  | s, .eval :: rest => evalNow s T :: runOps T s rest
+  | s, op :: rest => runOps T (applyOp s op) rest
+
+/-- a memo keyed on array identity: once filled it is returned for every later call on the same objects -/
+def runCachedById (T : Nat) : MState → Option (Except String (Nat → Nat → Nat → Nat)) → List Op →
+    List (Except String (Nat → Nat → Nat → Nat))
+  | _, _, [] => []
+  | s, none, .eval :: rest => evalNow s T :: runCachedById T s (some (evalNow s T)) rest
+  | s, some c, .eval :: rest => c :: runCachedById T s (some c) rest
+  | s, c, op :: rest => runCachedById T (applyOp s op) c rest
+
+/-! ### the documented seasons (`utils.season`): DJF = Winter (0), MAM = Spring (1), JJA = Summer (2), SON = Autumn (3) -/
+
+def seasonOfMonth (m : Int) : Option Int :=
+  if m = 3 ∨ m = 4 ∨ m = 5 then some 1
+  else if m = 6 ∨ m = 7 ∨ m = 8 then some 2
+  else if m = 9 ∨ m = 10 ∨ m = 11 then some 3
+  else if m = 12 ∨ m = 1 ∨ m = 2 then some 0
+  else none
+
 end Model.Metrics
